@@ -163,7 +163,7 @@ func c20Expected(eds []edsv1.ExtendedDaemonSet, ers []edsv1.ExtendedDaemonSetRep
 // parameters once); a scrape that panics or a series set that never catches up although the requests look right is
 // reported as such; a time-out without any other sign makes the case inconclusive.
 func TestC20Store(t *testing.T) {
-	rec := evid.New("TestC20Store", "C20", "the production path GetExtraMetricHandlers -> AddMetrics -> reflectors -> stores -> /ksmetrics handler against a fake API server (discovery, list, watch, 410 Gone): 1-2 ExtendedDaemonSets and 0-2 replica sets with generated counters, states and labels; 2-5 steps from {EDS modified (watch event), replica set modified (watch event), replica set added (watch event), EDS watch expires while an EDS changes (relist), replica-set watch expires while a replica set changes}; oracle after every step: the served series equal the series the generators yield for the server's objects (waiting up to 30s), every collection request has the shape of a list or of a watch with each parameter once, a scrape does not panic; non-trivial = a relist after an expired watch; distinct by configuration")
+	rec := evid.New("TestC20Store", "C20", "the production path GetExtraMetricHandlers -> AddMetrics -> reflectors -> stores -> /ksmetrics handler against a fake API server (discovery, list, watch, 410 Gone): 1-2 ExtendedDaemonSets and 0-2 replica sets with generated counters, states and labels; 2-5 steps from {EDS modified (watch event), replica set modified (watch event), replica set added (watch event), EDS watch expires while an EDS changes (relist), replica-set watch expires while a replica set changes}; oracle after every step: the served series equal the series the generators yield for the server's objects (waiting up to two minutes; a healthy store follows within milliseconds), every collection request has the shape of a list or of a watch with each parameter once, a scrape does not panic; non-trivial = a relist after an expired watch; distinct by configuration")
 	t.Cleanup(func() {
 		if !t.Failed() {
 			rec.Done()
@@ -270,7 +270,7 @@ func TestC20Store(t *testing.T) {
 			api.mu.Lock()
 			want := c20Expected(api.eds, api.ers)
 			api.mu.Unlock()
-			deadline := time.Now().Add(30 * time.Second)
+			deadline := time.Now().Add(120 * time.Second) // a healthy store follows within milliseconds
 			for {
 				got, p := scrape()
 				if p != "" {
@@ -288,7 +288,7 @@ func TestC20Store(t *testing.T) {
 					api.mu.Lock()
 					reqs := append([]string(nil), api.requests...)
 					api.mu.Unlock()
-					add("C20/store/series-do-not-follow-the-objects", fmt.Sprintf("%s: 30s later the served series still differ from the objects the server holds\n got:\n%s\nwant:\n%s\nrequests seen: %v", when, strings.Join(got, "\n"), strings.Join(want, "\n"), reqs))
+					add("C20/store/series-do-not-follow-the-objects", fmt.Sprintf("%s: two minutes later the served series still differ from the objects the server holds\n got:\n%s\nwant:\n%s\nrequests seen: %v", when, strings.Join(got, "\n"), strings.Join(want, "\n"), reqs))
 					return false
 				}
 				time.Sleep(10 * time.Millisecond)
